@@ -23,8 +23,14 @@ def seeded():
         sig=m.get('signatures','').replace(',',', ')
         out.append("| %s | %s | %s | %s | %s | %s |"%(m['id'],m['property'],m['needs_to_manifest'],first,now,'`'+sig+'`' if sig else ''))
     return "\n".join(out)
+def seedcount():
+    ms=[json.load(open(d)) for d in sorted(glob.glob(V+'/seeded/*/meta.json'))]
+    miss=[m['id'] for m in ms if m.get('detected_initially') is False]
+    still=[m['id'] for m in ms if not m.get('detected')]
+    return ("Of %d changes, %d were caught by the quick check as it stood when the change arrived; %d were missed at first (%s; C20-a was\nanswered with a machinery failure, exit 2) and led to the strengthenings recorded in the `strengthening`\nfield of their `meta.json` and in 11.1. %s (each is run twice by `selftest_mutants.sh seeded_`)."
+            %(len(ms),len(ms)-len(miss),len(miss),', '.join(miss),'All %d are caught now, every time'%len(ms) if not still else 'Still missed: '+', '.join(still)))
 s=open(V+'/DESIGN.md').read()
-for name,fn in (('sizes',sizes),('seeded',seeded)):
+for name,fn in (('sizes',sizes),('seeded',seeded),('seedcount',seedcount)):
     pat=re.compile(r'(<!-- BEGIN:%s -->\n).*?(<!-- END:%s -->)'%(name,name),re.S)
     if pat.search(s):
         s=pat.sub(lambda m: m.group(1)+fn()+"\n"+m.group(2),s)
